@@ -411,6 +411,10 @@ func checkC04(c *Ctx) {
 	ruleEOLFlag(c, "C04.g")
 	c.rule("C04.h", "the server's quoted strings never contain CR, LF or NUL (validQuoted byte-class table): every response is whole lines", 514)
 	ruleValidQuoted(c, "C04.h")
+	c.rule("C04.i", "whoever consumes input from the connection leaves the decoder's end-of-line flag cleared (converse of C04.g)", 3)
+	ruleEOLFlagOnConsumption(c, "C04.i")
+	c.rule("C04.j", "on the server only DiscardLine reads free text to the end of the line (a handler must not swallow a trailing literal header)", 1)
+	ruleNoFreeTextInHandlers(c, "C04.j")
 	c.assume("an I/O error returned by a tagged writer means the connection is dead; a second write attempt is not counted as a second completion")
 
 	readCommand := p.Func("imapserver", "Conn", "readCommand")
